@@ -1055,10 +1055,55 @@ def member_query_family(ctx, n):
             ctx.violation('member-query-set', dict(case, assign=good), 'a well-formed query was rejected: %s' % e, KNOWN_PRED)
 
 
+def malformed_member_family(ctx):
+    """one malformed query invalidates the whole list - wherever it stands (also behind 'all'), in the parser's
+    non-raising mode and in raising mode; the same list without it is accepted.  Search only."""
+    import cssutils
+    import xml.dom
+    from harness import impl
+    BAD = ['tv and', 'print and (min-width: )', 'bogus', 'not', 'screen and (color', 'tv print', 'and (color)', 'only']
+    SHAPES = ['%s', 'all, %s', 'ALL, %s', 'tv, all, %s', '%s, all', 'tv, %s, print', 'all /*c*/, %s', 'print and (color), %s']
+    for bad in BAD:
+        for shape in SHAPES:
+            text = shape % bad
+            good = ', '.join(x.strip() for x in (shape % '\0').split(',') if '\0' not in x) or 'all'
+            for owner in ('list', 'media', 'import'):
+                for raising in (False, True):
+                    impl.reset(raise_exceptions=raising)
+                    case = {'family': 'malformed-member', 'list': text, 'owner': owner, 'raising': raising}
+                    ctx.case(('malformed-member', text, owner, raising))
+                    try:
+                        if owner == 'list':
+                            ml = cssutils.stylesheets.MediaList()
+                            try:
+                                ml.mediaText = text
+                                accepted = ml.wellformed
+                            except xml.dom.DOMException:
+                                accepted = False
+                            ok_good = cssutils.stylesheets.MediaList(good).wellformed
+                        else:
+                            tmpl = '@media %s {a{left:0}} k{m:n}' if owner == 'media' else '@import "x.css" %s; k{m:n}'
+                            sh = cssutils.parseString(tmpl % text)
+                            # (a rule whose list is not well-formed may stay in cssRules; it is not written and its list says so)
+                            accepted = any(r.type in (r.MEDIA_RULE, r.IMPORT_RULE) and r.media.wellformed and r.cssText for r in sh.cssRules)
+                            sg = cssutils.parseString(tmpl % good)
+                            ok_good = any(r.type in (r.MEDIA_RULE, r.IMPORT_RULE) and r.media.wellformed and r.cssText for r in sg.cssRules)
+                    except Exception as e:  # noqa
+                        ctx.violation('observe-raises', case, '%s: %s' % (type(e).__name__, e), KNOWN_PRED)
+                        continue
+                    finally:
+                        cssutils.log.raiseExceptions = True
+                    if accepted or not ok_good:
+                        ctx.violation('query-parse', case, 'list %r %s; the list without the malformed query (%r) %s' % (
+                            text, 'accepted' if accepted else 'rejected', good, 'accepted' if ok_good else 'REJECTED'), KNOWN_PRED)
+    impl.reset()
+
+
 def run(ctx):
     quick = ctx.tier == 'quick'
     types = media_types()
     member_query_family(ctx, 120 if quick else 3000)
+    malformed_member_family(ctx)
     nh, nops, nq = (1400, 9, 1500) if quick else (40000, 16, 30000)
     ctx.cov['rule'] = ('operation histories (mediaText= / appendMedium, append, MediaQuery object / deleteMedium / list[i]=) over the live '
                        'MEDIA_TYPES in any case, queries with only/not, 1-3 and-joined features, dimension/number/ident/colour/string '
